@@ -368,6 +368,28 @@ func Run(cfg Config) int {
 	if len(obls) == 0 && cfg.Prop != "" {
 		report(cfg.Prop+"/no-obligations", "no obligation was generated for this property (vacuous check)", "", "", "empty")
 	}
+	// the work directory holds one query file per obligation (gigabytes for the larger properties): keep only the
+	// files of the obligations that failed
+	if os.Getenv("VERIF_KEEP_WORK") == "" {
+		keep := map[string]bool{}
+		for _, o := range failed {
+			if o.SMT != "" {
+				keep[filepath.Base(o.SMT)] = true
+				keep[strings.TrimSuffix(filepath.Base(o.SMT), ".smt2")+".sliced.smt2"] = true
+				keep[filepath.Base(o.SMT)+".model.smt2"] = true
+			}
+		}
+		if ents, err := os.ReadDir(cfg.WorkDir); err == nil {
+			for _, e := range ents {
+				if !keep[e.Name()] {
+					os.Remove(filepath.Join(cfg.WorkDir, e.Name()))
+				}
+			}
+			if len(keep) == 0 {
+				os.Remove(cfg.WorkDir)
+			}
+		}
+	}
 	wall := time.Since(start).Seconds()
 	if !cfg.Verbose {
 		fmt.Printf("%s: %d obligations, %d discharged, %d failed, %d functions under contract, %d trusted, %d paths; gen %.1fs, solver %.1fs (cpu), wall %.1fs\n",
